@@ -133,3 +133,71 @@ mod tests {
         assert_eq!(t.largest_below(11.0), None);
     }
 }
+
+/// Exact upper tail P(S >= x) for matrices too wide to enumerate: depth-first over the words, pruned by
+/// the best score the remaining rows can still add. Feasible only for x near the maximum; gives up (None)
+/// after `cap` visited prefixes.
+pub struct UpperTail {
+    rows: Vec<Vec<(f64, f64)>>,
+    /// suffix_max[i] = largest score rows i.. can add
+    suffix_max: Vec<f64>,
+    pub max: f64,
+}
+
+impl UpperTail {
+    pub fn new(cells: &[Vec<f32>], probs: &[f64]) -> UpperTail {
+        let mut rows: Vec<Vec<(f64, f64)>> = cells
+            .iter()
+            .map(|r| {
+                let mut v: Vec<(f64, f64)> = r.iter().zip(probs.iter()).filter(|(c, &q)| q > 0.0 && c.is_finite()).map(|(&c, &q)| (c as f64, q)).collect();
+                // best symbols first: the pruning cuts a row's loop at the first symbol that cannot reach x
+                v.sort_by(|a, b| b.0.partial_cmp(&a.0).unwrap());
+                v
+            })
+            .collect();
+        // rows with the widest spread first: prunes earliest
+        rows.sort_by(|a, b| {
+            let sa = a.first().map_or(0.0, |x| x.0) - a.last().map_or(0.0, |x| x.0);
+            let sb = b.first().map_or(0.0, |x| x.0) - b.last().map_or(0.0, |x| x.0);
+            sb.partial_cmp(&sa).unwrap()
+        });
+        let mut suffix_max = vec![0.0; rows.len() + 1];
+        for i in (0..rows.len()).rev() {
+            suffix_max[i] = suffix_max[i + 1] + rows[i].first().map_or(f64::NEG_INFINITY, |x| x.0);
+        }
+        let max = suffix_max[0];
+        UpperTail { rows, suffix_max, max }
+    }
+
+    pub fn ge(&self, x: f64, cap: u64) -> Option<f64> {
+        let mut visited = 0u64;
+        let mut total = 0.0;
+        if self.dfs(0, 0.0, 1.0, x, cap, &mut visited, &mut total) {
+            Some(total)
+        } else {
+            None
+        }
+    }
+
+    fn dfs(&self, i: usize, score: f64, prob: f64, x: f64, cap: u64, visited: &mut u64, total: &mut f64) -> bool {
+        if i == self.rows.len() {
+            if score >= x {
+                *total += prob;
+            }
+            return true;
+        }
+        for &(c, q) in &self.rows[i] {
+            if score + c + self.suffix_max[i + 1] < x {
+                break; // symbols are sorted by decreasing score
+            }
+            *visited += 1;
+            if *visited > cap {
+                return false;
+            }
+            if !self.dfs(i + 1, score + c, prob * q, x, cap, visited, total) {
+                return false;
+            }
+        }
+        true
+    }
+}
